@@ -238,7 +238,12 @@ def bool_atom_desc(body, local, depth=0):
                 if o["k"] in ("copy", "move"):
                     p = o["place"]
                     f = place_fields(p)
-                    if f:
+                    ef = body.prov._env_field_ops(p) if f else None
+                    if ef is not None and not ef[1] and all(x["k"] in ("copy", "move") and not [pr for pr in x["place"]["proj"] if pr["k"] != "deref"] for x in ef[0]):
+                        # a captured variable of a spliced-in async fn / closure: describe the value it was built from
+                        for x in ef[0]:
+                            out += bool_atom_desc(body, x["place"]["local"], depth + 1)
+                    elif f:
                         out.append(("field", f[-1], tuple(f), bb))
                     else:
                         out += bool_atom_desc(body, p["local"], depth + 1)
